@@ -305,6 +305,9 @@ var fixedPrograms = []struct {
 	{"sized-int", "package main\n\nfunc main(a, b int) int {\n\tx := a + b\n\ty := x >> 1\n\tz := a - b\n\treturn y + z\n}\n", [][]int{{8}, {8}}, []string{"100", "7"}, []string{"27", "120"}},
 	{"sized-int16", "package main\n\nfunc main(a, b int) int {\n\tx := a + b\n\ty := x >> 1\n\tz := a - b\n\treturn y + z\n}\n", [][]int{{16}, {16}}, []string{"1000", "7"}, []string{"277", "30000"}},
 	{"bytes", "package main\n\nfunc main(a, b []byte) []byte {\n\tvar r [2]byte\n\tr[0] = a[0] ^ b[1]\n\tr[1] = a[1] + b[0]\n\treturn r[0:2]\n}\n", [][]int{{16}, {16}}, []string{"0x1234", "0xff01"}, []string{"0xa0b1", "0x0203"}},
+	{"wide-instr-div96", "package main\n\nfunc main(a, b uint96) uint96 {\n\treturn a / (b | 1)\n}\n", nil, []string{"79228162514264337593543950335", "12345678901234567890123"}, []string{"3", "987654321987"}},
+	{"wide-instr-mul256", "package main\n\nfunc main(a, b uint256) uint256 {\n\treturn a * b\n}\n", nil, []string{"115792089237316195423570985008687907853269984665640564039457584007913129639935", "12345678901234567890123456789012345678901234567890"}, []string{"115792089237316195423570985008687907853269984665640564039457584007913129639935", "98765432109876543210987654321"}},
+	{"wide-instr-mod128", "package main\n\nfunc main(a, b uint128) uint128 {\n\treturn a % (b | 1)\n}\n", nil, []string{"340282366920938463463374607431768211455"}, []string{"18446744073709551629"}},
 	{"loop", "package main\n\nfunc main(a, b uint8) uint8 {\n\tvar sum uint8\n\tfor i := 0; i < 4; i++ {\n\t\tt := (a >> i) & 1\n\t\tsum = sum + t*b\n\t}\n\treturn sum\n}\n", nil, []string{"13", "255"}, []string{"7", "3"}},
 }
 
